@@ -249,6 +249,18 @@ def catalogue():
     m.add(0.3, a); m.add(1.3, b); m.add(1.3, c)    # due at 0.3, 1.6, 2.9 -> samples 0, 2, 3
     return m
   C["streamix-fractional3"] = S(mixfrac2, lambda k: (k, max(k - 2, 0), max(k - 3, 0)), nsrc=3)
+  def mixnote(keep):
+    # a note = source x a finite envelope of 3 samples: once the note has ended (the 4th read finds the
+    # envelope over) its source is never read again, whether the mixer keeps running (keep) or goes on
+    # with the second event
+    def build(a, b):
+      m = Streamix(keep=keep)
+      m.add(0, Stream(a) * [1, 1, 1])
+      m.add(1, b)
+      return m
+    return build
+  C["streamix-note"] = S(mixnote(False), lambda k: (min(k, 4), max(k - 1, 0)), nsrc=2)
+  C["streamix-keep-note"] = S(mixnote(True), lambda k: (min(k, 4), max(k - 1, 0)), nsrc=2)
   C["streamix"] = S(mix(False), lambda k: (k, max(k - 2, 0)), nsrc=2)
   C["streamix-keep"] = S(mix(True), lambda k: (k, max(k - 2, 0)), nsrc=2)
   C["modulo_counter(start)"] = S(lambda s: modulo_counter(Stream(s), 7., 2.), lambda k: k)
@@ -288,6 +300,8 @@ def gen_stages(run):
   for name in run.rot(list(CAT)):
     for mode in ("step", "after-limit"):
       yield (name, K, mode)
+    if CAT[name].nsrc >= 2 and (name.startswith("tv-") or name.endswith("(stream)")):
+      yield (name, K, "input-ends")
   # every stage once more over a long run: internal batching or buffering that only starts after
   # tens or hundreds of items would read ahead there
   for name in CAT:
@@ -366,8 +380,26 @@ def run_stage(case):
   name, K, mode = case
   if mode == "step":
     return run_chain([name], K)
-  # a finite run: limit(n) downstream must not make the stage read ahead when it is drained
   st = CAT[name]
+  if mode == "input-ends":
+    # a filter whose coefficients / design parameters are Streams, on an input that ends: the coefficient
+    # sources were read once per output sample - not once more for a sample that never came
+    n = 5
+    srcs = [CountingSource(list(range(n)), name="input")] + \
+           [CountingSource(itertools.count(), name="coef%d" % i) for i in range(1, st.nsrc)]
+    for s_ in srcs[1:]:
+      s_.limit = n + 2
+    key = "lazy:%s:input-ends" % name
+    try:
+      got = list(st.build(*srcs))
+    except Overread as exc:
+      return bad(key, "a coefficient source was read far past the end of the input", n, str(exc))
+    pulls = [s_.pulls for s_ in srcs[1:]]
+    if len(got) != n or any(p != n for p in pulls):
+      return bad(key, "when the input ends after n samples, each coefficient / parameter source has been read n times",
+                 {"outputs": n, "pulls": [n] * len(pulls)}, {"outputs": len(got), "pulls": pulls})
+    return R(None, True, "input-ends")
+  # a finite run: limit(n) downstream must not make the stage read ahead when it is drained
   if not st.chain:
     return R(None, False, "n/a")
   n = 5
